@@ -292,16 +292,18 @@ End Reader.
 Section Minc.
 Context {F R : Type}.
 Variable scale : F -> list Z -> R.
+Variable noscale : list Z -> R.          (* float-typed image: _normalize returns the data as read *)
 Variable dF : F.
 
-Definition minc_getitem (shape : list Z) (nscales : Z) (elems : list (list Z)) (facs : list F)
+Definition minc_getitem (isfloat : bool) (shape : list Z) (nscales : Z) (elems : list (list Z)) (facs : list F)
     (ix : list idx) : res (list Z * list R) :=
   c <- canonical_slicers true ix shape ;;                    (* image.data[sliceobj] *)
   (* get_scaled_data (as of fix 139e21b4): np.asarray(raw_data).view(dtype with the DATA's own
      byte order): only the signedness is reinterpreted, the bytes of every element — also of
      the native scalar an integers-only index yields — are kept *)
   let '(s, raw) := np_index [] OrdC shape c elems in
-  if nscales =? 0 then Ok (s, map (scale (nth 0 facs dF)) raw)
+  if isfloat then Ok (s, map noscale raw)                    (* np.issubdtype(ddt.type, np.floating) *)
+  else if nscales =? 0 then Ok (s, map (scale (nth 0 facs dF)) raw)
   else
     c' <- canonical_slicers true ix shape ;;                 (* _normalize re-canonicalises *)
     match split_real (Z.to_nat nscales) c' with              (* ax_inds[nscales] *)
